@@ -132,6 +132,20 @@ CHECKS = {
         technique="Lean 4 proof (matrix algebra) + differential correspondence with the real UKF on linear systems against an exact Kalman filter",
         ref="5/C06",
     ),
+    "C08": dict(
+        text="Theorems (Lean 4): any two results of one batch commute under the processResults merges (reward jobs write different rows, task jobs report "
+             "disjoint sensors; record lists compared as multisets), merges respect state equivalence, hence by induction over List.Perm the post-step engine "
+             "state is the same for EVERY permutation of EVERY batch; the step's observation/miss lists contain exactly the records the jobs returned, each "
+             "once (the lists are reset per step); every tasked sensor ends the step with the pointing state its job reported. Witness theorems record the "
+             "unrepaired quadratic miss list and the per-job reset of sensor_changes. Tied to the code by real scenarios on real Ray (1-4 radars x 1-5 targets, "
+             "three policies, displaced truths, slow sensors, narrow fields of view) in which the harness chooses the order JobExecutor.join processes finished "
+             "jobs (FIFO, LIFO, seeded random): visibility/reward/decision matrices, observations, misses, pointing state, estimates, truths and stored rows are "
+             "compared bit for bit across orders, and the processed job sequence of every step is replayed through the model.",
+        note=BASE_TB + "Ray copies objects to workers and ray.wait is complete (only the processing order is chosen); the guarded hook seeds a task job's measurement "
+             "noise from the job so that noise does not depend on the worker process; AllVisibleDecision (one sensor, several targets per step) is outside the checked policies.",
+        technique="Lean 4 proof (commutativity + induction over permutations) + real Ray runs under harness-chosen completion orders",
+        ref="5/C08",
+    ),
 }
 
 PLANNED = {}
@@ -162,9 +176,9 @@ def main():
         "setup_cmd": "./setup.sh",
         "hooks": {
             "guard": "RESONAATE_VERIF",
-            "enable": "environment variable RESONAATE_VERIF=1 (set by ./check); no source hooks are needed so far",
+            "enable": "environment variable RESONAATE_VERIF=1 (set by ./check and inherited by the Ray workers)",
             "baseline_off_cmd": "cd /repo && /venv/bin/python -m pytest -ra -q -p no:cacheprovider --timeout=900 --continue-on-collection-errors",
-            "source_commits": [],
+            "source_commits": ["06d62ab"],
             "add_only": True,
         },
         "engines": [{
